@@ -219,6 +219,13 @@ class Ctx:
                     continue
                 if eq_:
                     return self.ob(rule, instance, True, f"code ≡ reference (equivalent spelling #{k_ + 1}): {sb_[:300]}", site, config)
+                if os.environ.get("VERIF_DEBUG_ALTS"):
+                    from .nf import show_diff as _sd
+
+                    try:
+                        print(f"DEBUG-ALT {rule} #{k_ + 1}: {_sd(*self._last_nf)[:3]}")
+                    except Exception as e_:
+                        print(f"DEBUG-ALT {rule} #{k_ + 1}: {e_!r}")
         if code_v is None or ref_v is None or (isinstance(code_v, V) and code_v.kind == "undef"):
             return self.ob(rule, instance, False, f"value missing on the {'code' if code_v is None or (isinstance(code_v, V) and code_v.kind == 'undef') else 'reference'} side", site, config)
         eq, sa, sb = self.same(N, code_v, ref_v)
